@@ -571,3 +571,34 @@ func canonConstName(c *types.Const) string {
 	}
 	return c.Name()
 }
+
+// lookupParams: the parameters of the value lookup by role — the datum (interface{}), the selector's path ([]string)
+// and the options: the caller's option list (…Option / []Option), or the option set already folded into the options
+// struct (resolved == true).
+func (a *Anchors) lookupParams(prog *Program) (datum, path, opts *ssa.Parameter, resolved bool) {
+	ot := optRoles(prog).optionsT
+	for _, p := range a.GetValue.Params {
+		t := p.Type()
+		switch {
+		case isEmptyIface(t) && datum == nil:
+			datum = p
+		case isStringSlice(t) && path == nil:
+			path = p
+		case isOptionList(t):
+			opts = p
+		case ot != nil && types.Identical(t, ot):
+			opts, resolved = p, true
+		}
+	}
+	return
+}
+
+func isStringSlice(t types.Type) bool {
+	s, ok := t.Underlying().(*types.Slice)
+	return ok && types.Identical(s.Elem(), types.Typ[types.String])
+}
+
+func isOptionList(t types.Type) bool {
+	s, ok := t.Underlying().(*types.Slice)
+	return ok && namedIs(s.Elem(), modPath, "Option")
+}
